@@ -6,24 +6,33 @@
 
 package reportfeed
 
+// A recorded buffer keeps the caller's slice and the number of bytes read into it;
+// the status page slices it to that length, so the length must fit (BufOK).  The
+// Buffer objects are created here and reachable only through the unexported fields;
+// that callers leave the slice variable they passed alone afterwards is assumed
+// (in this repository each one is a per-iteration local that is never reassigned).
+//@ define BufOK(b) = b == nil || b.Content == nil || (0 <= b.ContentLength && b.ContentLength <= cap(*b.Content))
 //@ type ReportFeed
 //@ guarded_by Mutex: lastClientBuffer, lastServerBuffer
+//@ invariant[C19] BufOK(self.lastClientBuffer) && BufOK(self.lastServerBuffer)
 
 //@ func Sanitise
 //@ ensures[C19] !contains(result, "<") && !contains(result, ">")
 
 //@ func (*ReportFeed).RecordClientBuffer
-//@ requires[C07] rf != nil
+//@ requires rf != nil
+//@ requires[C19] buffer != nil ==> 0 <= length && length <= cap(*buffer)
 //@ modifies rf.lastClientBuffer, gc("clock", 0)
 
 //@ func (*ReportFeed).RecordServerBuffer
-//@ requires[C07] rf != nil
+//@ requires rf != nil
+//@ requires[C19] buffer != nil ==> 0 <= length && length <= cap(*buffer)
 //@ modifies rf.lastServerBuffer, gc("clock", 0)
 
 // The status page: the template is a constant; every traffic-derived argument (the two hex
 // dumps and the message list) reaches it free of '<' and '>'.
 //@ func (*ReportFeed).Status
-//@ requires[C07] rf != nil && rf.RecentMessages != nil
+//@ requires rf != nil && rf.RecentMessages != nil
 //@ arith wrap
 //@ atcall[C19] fmt.Sprintf /<html|<h3>|<pre>/: !contains(argstr(a1, 1), "<") && !contains(argstr(a1, 1), ">") && !contains(argstr(a1, 3), "<") && !contains(argstr(a1, 3), ">") && !contains(argstr(a1, 4), "<") && !contains(argstr(a1, 4), ">")
 //@ loop 1
